@@ -23,7 +23,7 @@ PIDS = ['C%02d' % i for i in range(1, 21)]
 def one(path):
     from sa import facts, core
     name = os.path.basename(path.rstrip('/'))
-    patch = os.path.abspath(os.path.join(path, 'patch.diff'))
+    patch = os.path.abspath(path if os.path.isfile(path) else os.path.join(path, 'patch.diff'))
     out = {'patch': name, 'checks': {}}
     d = tempfile.mkdtemp(prefix='gdstk-selftest.')
     try:
